@@ -35,8 +35,22 @@ RandomGrammar(k) ==
               ELSE RandomSubset(RandomElement(1..3), BigAlts))]
 Family2 == { g \in { RandomGrammar(k) : k \in 1..NRandom } : Admissible(g) }
 
+(* Family3: nullability flowing through a chain of nonterminals, repeated nullable occurrences in one    *)
+(* expansion and nullable neighbours of terminals (where prediction, completion and forest extraction     *)
+(* of an Earley parser are delicate); exhaustive over the listed alternatives                             *)
+NA == SymNT("<A>")
+NB == SymNT("<B>")
+TA == SymT(A_)
+TB == SymT(B_)
+F3Start == { <<NA, NA>>, <<NA, NA, TA>>, <<TA, NA, NA>>, <<NA, TB, NA>>, <<NA, NB>>, <<NB, NA>> }
+F3A == { <<NB>>, <<TA>>, <<NB, NB>>, <<TA, NB>>, <<NB, TA>>, <<NB, NB, TB>>, <<NB, TA, NB>> }
+F3B == { <<>>, <<TA>>, <<TB>>, <<TB, NB>> }
+Family3 == { g \in { [s \in {"<start>", "<A>", "<B>"} |->
+                        SetToSeq(IF s = "<start>" THEN {st} ELSE IF s = "<A>" THEN aa ELSE bb)] :
+                       st \in F3Start, aa \in AltSets(F3A, 2), bb \in AltSets(F3B, 3) } : Admissible(g) }
+
 VARIABLES done, i
-GInit == /\ done = JsonSerialize(IOEnv.OUT_FILE, [f1 |-> SetToSeq(Family1), f2 |-> SetToSeq(Family2)])
+GInit == /\ done = JsonSerialize(IOEnv.OUT_FILE, [f1 |-> SetToSeq(Family1), f2 |-> SetToSeq(Family2), f3 |-> SetToSeq(Family3)])
          /\ i = 0
 GNext == UNCHANGED <<done, i>>
 
